@@ -222,11 +222,21 @@ def ground_fresh_prank():
     n = 0
     for mod in ("halmos.sevm", "halmos.__main__", "halmos.cheatcodes"):
         sf = loader.module_file(mod)
+        # enclosing function of each construction site (ids must not depend on line numbers)
+        owner = {}
+        for fn_node in ast.walk(sf.tree):
+            if isinstance(fn_node, (ast.FunctionDef, ast.AsyncFunctionDef)):
+                for sub in ast.walk(fn_node):
+                    if isinstance(sub, ast.Call):
+                        owner[id(sub)] = getattr(fn_node, "_qual", fn_node.name)  # innermost wins (walk order: outer first)
+        per_fn = {}
         for node in ast.walk(sf.tree):
             if isinstance(node, ast.Call) and getattr(node.func, "id", None) == "CallContext":
                 n += 1
+                q = owner.get(id(node), "<module>")
+                per_fn[q] = per_fn.get(q, 0) + 1
                 kws = [k.arg for k in node.keywords]
-                out.append((f"fresh-prank/{mod}:{node.lineno}", "prank" not in kws and len(node.args) <= 1, f"CallContext({', '.join(k for k in kws if k)}) at {mod}:{node.lineno}"))
+                out.append((f"fresh-prank/{mod}:{q}#{per_fn[q]}", "prank" not in kws and len(node.args) <= 1, f"CallContext({', '.join(k for k in kws if k)}) in {q} (line {node.lineno})"))
     out.append(("fresh-prank/construction-sites-found", n >= 5, f"{n} CallContext(...) sites"))
     f = hs.CallContext.__dataclass_fields__["prank"]
     fresh = f.default_factory is hc.Prank
@@ -412,6 +422,27 @@ def label_of(term):
     return names
 
 
+def replay_min_max(r):
+    """real create_uint256_min_max on boundary ranges: the constraints must be exactly min <= v <= max"""
+    m = r.get("model") or {}
+    grid = [(0, 0), (0, 1), (5, 5), (1, 10), (0, 2**255 - 1), (0, 2**255), (2**255, 2**256 - 2), (1, 2**256 - 2), (0, 2**256 - 1), (2**256 - 1, 2**256 - 1)]
+    if isinstance(m.get("min_value"), int) and isinstance(m.get("max_value"), int) and m["min_value"] <= m["max_value"]:
+        grid.insert(0, (m["min_value"], m["max_value"]))
+    for lo, hi in grid:
+        ex = CounterEx()
+        try:
+            out = hc.create_uint256_min_max(ex, cd(lo, hi), name="x")
+        except Exception as e:  # noqa
+            return {"reproduced": True, "detail": f"create_uint256_min_max(min={lo:#x}, max={hi:#x}) raised {type(e).__name__}: {e}", "inputs": [lo, hi]}
+        v = out.unwrap()
+        s_ = z3.Solver()
+        s_.add(z3.And(*ex.path.appended) != z3.And(z3.UGE(v, lo), z3.ULE(v, hi)))
+        if s_.check() == z3.sat:
+            w = s_.model().eval(v, model_completion=True)
+            return {"reproduced": True, "detail": f"vm.randomUint / svm.createUint256 with min={lo:#x}, max={hi:#x}: the path constraints {ex.path.appended} are not `min <= v <= max`; e.g. v = {w} is admitted or excluded wrongly", "inputs": [lo, hi]}
+    return {"reproduced": False, "detail": "real create_uint256_min_max constrains the value to [min, max] on the boundary grid"}
+
+
 def cd(*words, tail=b""):
     """real calldata: 4-byte selector, 32-byte words, optional tail (e.g. an ABI-encoded string)"""
     return ByteVec(b"\x11\x22\x33\x44" + b"".join(int(w).to_bytes(32, "big") for w in words) + tail)
@@ -547,6 +578,36 @@ def create_cases():
             ctx.oblige("the added constraints are exactly min <= v <= max (unsigned)", conj == z3.And(z3.UGE(v, lo), z3.ULE(v, hi)))
 
         out.append(Case(f"{PROP}/cheatcodes.create_uint256_min_max", f"[{lo:#x},{hi:#x}]"[:40], harness_range, sources=("halmos.cheatcodes:create_uint256_min_max",)))
+
+    def harness_range_sym(interp):
+        from pyvc.sym import to_bv
+
+        ctx = interp.ctx
+        ex = CounterEx(start=9)
+        lo = ctx.new_int_input("min_value", 256)
+        hi = ctx.new_int_input("max_value", 256)
+        words = {4: to_bv(lo, 256), 36: to_bv(hi, 256)}
+        interp.contracts["halmos.utils:extract_word"] = lambda i, a, k: words[a[1]]
+        interp.externals[hc.extract_word] = lambda i, d, off: words[off]
+        try:
+            r = interp.call(hc.create_uint256_min_max, [ex, "<calldata>"], {"name": "x"})
+        except HalmosException:
+            ctx.oblige("rejected only when min > max", lo.e > hi.e, z3.UGT(lo.view[0], hi.view[0]))
+            return
+        except BaseException as e:
+            if isinstance(e, _ENGINE):
+                raise
+            ctx.oblige(f"no-exception[{type(e).__name__}]", z3.BoolVal(False), info={"msg": str(e)[:200]})
+            return
+        ctx.oblige("accepted only when min <= max", lo.e <= hi.e, z3.ULE(lo.view[0], hi.view[0]))
+        t = unwrap(r)
+        names = label_of(t)
+        name = next(iter(n for n in names if n.startswith("halmos_")), "")
+        v = z3.BitVec(name, 256)
+        conj = z3.And(*[c for c in ex.path.appended]) if ex.path.appended else z3.BoolVal(True)
+        ctx.oblige("for ALL bounds: the added constraints are exactly min <= v <= max (unsigned)", conj == z3.And(z3.UGE(v, lo.view[0]), z3.ULE(v, hi.view[0])))
+
+    out.append(Case(f"{PROP}/cheatcodes.create_uint256_min_max", "symbolic bounds", harness_range_sym, replay=replay_min_max, sources=("halmos.cheatcodes:create_uint256_min_max",)))
 
     def harness_counter(interp):
         ctx = interp.ctx
